@@ -143,5 +143,6 @@ PairLaws ==
     /\ Pair(PBase, PBase) # TZero
 
 View == <<s, a, b, t, Len(hist)>>
+ViewOperands == <<s, a, b>>     \* PairLaws speaks about the operand registers only
 Emit == (Len(hist) = 8) => PrintT(<<"TRACE", ToJson(hist)>>)
 =============================================================================
